@@ -407,6 +407,9 @@ structure Env where
   /-- `get_handler('iterate', obj)` for `type(obj).__name__`: the name of the handler that serves
       the class at this moment, or how the lookup fails -/
   lk : String → Except IterErr String
+  /-- what calling the handler of that name on a target yields, drained into a list;
+      `none` = the call raised (any Exception) -/
+  run : String → Heap → Val → Option (List Val)
   foldCatch : List (String × String)    -- `except X: raise Y` in Fold.glomit (generated)
   iterCatch : List (String × String)    -- `except X: raise Y` around `iterate(target)` in target_iter (generated)
   excTable : ClassTable
@@ -446,7 +449,7 @@ def applyHandler (env : Env) (ans : Except IterErr String) (h : Heap) (v : Val) 
   match ans with
   | .error e => .error e
   | .ok hn =>
-    match runHandler hn h v with
+    match env.run hn h v with
     | some items => .ok items
     | none => .error (handlerFailure env)
 
